@@ -12,7 +12,9 @@ from pathlib import Path
 
 ROOT = Path(__file__).resolve().parent.parent
 REPO = Path(os.environ.get("VERIF_REPO", "/repo"))
-EVIDENCE = ROOT / "evidence"
+# evidence describes runs against /repo itself; a run pointed at a scratch copy (VERIF_REPO: seeded-change and mutation experiments) keeps its
+# evidence out of the committed directory
+EVIDENCE = ROOT / "evidence" if str(REPO) == "/repo" else ROOT / ".cache" / "evidence-scratch"
 REPLAYS = ROOT / "replays"
 KNOWN = ROOT / "known_findings.json"
 
@@ -259,7 +261,7 @@ class Ctx:
             "wall_s": round(time.time() - self.t0, 2),
             "violations": len(real),
         }
-        EVIDENCE.mkdir(exist_ok=True)
+        EVIDENCE.mkdir(parents=True, exist_ok=True)
         _validate_evidence(ev)
         (EVIDENCE / f"{self.prop}.json").write_text(json.dumps(ev, indent=1, default=repr))
         for ln in lines:
